@@ -9,22 +9,32 @@ package main
 // keys ("watch") the property speaks about.  Reset renders the document with
 // the TOML / YAML / JSON library the repo already depends on.  Convert runs the
 // REAL converter: the test binary re-executes itself and the child calls the
-// package's own main() with `convert config|rules --input … --output …`
-// (main may call os.Exit, which is why it runs in a child).  Load hands the
-// produced file to the REAL v2 loader (config.NewConfig, validation on) and
-// reads the effective values through the public Config getters.
+// package's own main() with `convert config|rules|helm --input … --output …`
+// (main calls os.Exit on every failure, which is why it runs in a child).  Load
+// hands the produced file to the REAL v2 loader (config.NewConfig, validation
+// on) and reads the effective values through the public Config getters.
+//
+// The outcome of a document depends on the document only, so a small pool of
+// child processes computes the documents of the graph ahead of the walker, in
+// the walker's own order (a conversion costs ~0.2 s of CPU, most of it process
+// start-up and metadata parsing; a child therefore handles a few documents in a
+// row and is replaced when the converter exits).  Apply(Convert) / Apply(Load)
+// reveal the stored outcome one step at a time.
 
 import (
-	"bytes"
+	"bufio"
 	"encoding/json"
 	"fmt"
+	"math/rand"
 	"os"
 	"os/exec"
 	"path/filepath"
 	"reflect"
+	"runtime"
 	"sort"
 	"strconv"
 	"strings"
+	"sync"
 	"testing"
 	"time"
 
@@ -34,39 +44,168 @@ import (
 	"gopkg.in/yaml.v3"
 )
 
-const c38ChildEnv = "C38_CHILD_ARGS"
+const c38BatchEnv = "C38_CHILD_BATCH"
+const c38Begin = "C38-BEGIN "
+const c38Converted = "C38-CONVERTED"
+const c38Marker = "C38-RESULT "
+const c38BatchSize = 6
 
-// TestVerifC38Child is the re-executed child: it runs the converter's real main().
+type c38LoadReq struct {
+	File  string   `json:"file"`
+	Out   string   `json:"out"`
+	Dir   string   `json:"dir"`
+	Watch []string `json:"watch"`
+}
+
+type c38LoadRes struct {
+	Res  map[string]any `json:"res"`
+	Diag string         `json:"diag"`
+	Err  string         `json:"err"`
+}
+
+type c38ChildJob struct {
+	ID   int        `json:"id"`
+	Args []string   `json:"args"`
+	Load c38LoadReq `json:"load"`
+}
+
+// TestVerifC38Child is the re-executed child.  For every document handed to it
+// it runs the converter's real main() and, when main comes back (it calls
+// os.Exit on every failure), lets Refinery's loader read the produced file.
 func TestVerifC38Child(t *testing.T) {
-	raw := os.Getenv(c38ChildEnv)
+	raw := os.Getenv(c38BatchEnv)
 	if raw == "" {
 		t.Skip("only meaningful as a child of TestVerifConvert")
 	}
-	var args []string
-	if err := json.Unmarshal([]byte(raw), &args); err != nil {
+	var batch []c38ChildJob
+	if err := json.Unmarshal([]byte(raw), &batch); err != nil {
 		fmt.Fprintln(os.Stderr, "c38 child: bad args:", err)
 		os.Exit(97)
 	}
-	os.Args = append([]string{"convert"}, args...)
-	main()
-	os.Exit(0) // skip the testing package's own epilogue (PASS line on the converter's stdout)
+	for _, b := range batch {
+		fmt.Printf("\n%s%d\n", c38Begin, b.ID)
+		os.Args = append([]string{"convert"}, b.Args...)
+		main()
+		fmt.Printf("\n%s\n", c38Converted)
+		lr := c38LoadRes{Res: map[string]any{"stage": "nofile"}}
+		if st, err := os.Stat(b.Load.Out); err == nil && st.Size() > 0 {
+			lr = c38Load(b.Load)
+		}
+		out, _ := json.Marshal(lr)
+		fmt.Printf("\n%s%s\n", c38Marker, out)
+	}
+	os.Exit(0) // skip the testing package's own epilogue
+}
+
+// One job = one v1 document.
+type c38Job struct {
+	id      int
+	init    map[string]any
+	dir     string
+	started bool
+	done    chan struct{}
+	conv    string
+	res     map[string]any
+	diagC   string
+	diagL   string
+	err     error
 }
 
 type c38Harness struct {
-	root   string
-	n      int
-	dir    string
-	init   map[string]any
-	file   string // "config" | "rules"
-	format string // "toml" | "yaml" | "json"
-	watch  []string
-	phase  string
-	conv   string
-	res    map[string]any
-	inPath string
-	outP   string
-	debug  bool
-	last   string // diagnostics of the last step (never part of the projection)
+	root  string
+	debug bool
+	mu    sync.Mutex
+	jobs  map[string]*c38Job
+	n     int
+	cur   *c38Job
+	phase string
+	conv  string
+	res   map[string]any
+	last  string // diagnostics of the last step (never part of the projection)
+}
+
+func c38JobKey(init map[string]any) string {
+	return verifkit.Canon(map[string]any{"file": init["file"], "fmt": init["fmt"], "doc": init["doc"], "watch": init["watch"]})
+}
+
+func (h *c38Harness) job(init map[string]any) *c38Job {
+	k := c38JobKey(init)
+	h.mu.Lock()
+	defer h.mu.Unlock()
+	j := h.jobs[k]
+	if j == nil {
+		h.n++
+		j = &c38Job{id: h.n, init: init, dir: filepath.Join(h.root, strconv.Itoa(h.n)), done: make(chan struct{})}
+		h.jobs[k] = j
+	}
+	return j
+}
+
+// claim marks the not yet started jobs among js as started and returns them.
+func (h *c38Harness) claim(js []*c38Job) []*c38Job {
+	h.mu.Lock()
+	defer h.mu.Unlock()
+	var mine []*c38Job
+	for _, j := range js {
+		if !j.started {
+			j.started = true
+			mine = append(mine, j)
+		}
+	}
+	return mine
+}
+
+// start reads the graph the walker is about to replay and computes its initial
+// states ahead of it, in the order the walker will ask for them.
+func (h *c38Harness) start() error {
+	d, err := os.MkdirTemp("", "c38-")
+	if err != nil {
+		return err
+	}
+	h.root = d
+	h.debug = os.Getenv("C38_DEBUG") != ""
+	h.jobs = map[string]*c38Job{}
+	if os.Getenv("VERIF_REPLAY") != "" {
+		return nil // a single recorded walk: its document is computed on demand
+	}
+	raw, err := os.ReadFile(os.Getenv("VERIF_GRAPH"))
+	if err != nil {
+		return nil // nothing to look ahead in: jobs are computed on demand
+	}
+	var g struct {
+		States []map[string]any `json:"states"`
+		Init   []int            `json:"init"`
+	}
+	if err := json.Unmarshal(raw, &g); err != nil {
+		return nil
+	}
+	var todo []*c38Job
+	for _, i := range g.Init {
+		todo = append(todo, h.job(g.States[i]))
+	}
+	// the walker's first use of its generator is this very shuffle of the initial states
+	seed, _ := strconv.ParseInt(os.Getenv("VERIF_SEED"), 10, 64)
+	rand.New(rand.NewSource(seed)).Shuffle(len(todo), func(i, j int) { todo[i], todo[j] = todo[j], todo[i] })
+	workers := runtime.NumCPU() / 2
+	if workers > 8 {
+		workers = 8
+	}
+	if workers < 1 {
+		workers = 1
+	}
+	ch := make(chan []*c38Job, len(todo)/c38BatchSize+1)
+	for i := 0; i < len(todo); i += c38BatchSize {
+		ch <- todo[i:min(i+c38BatchSize, len(todo))]
+	}
+	close(ch)
+	for w := 0; w < workers; w++ {
+		go func() {
+			for b := range ch {
+				c38RunBatch(h.claim(b))
+			}
+		}()
+	}
+	return nil
 }
 
 // c38Generic turns the decoded-JSON document of the specification into Go values
@@ -122,39 +261,15 @@ func c38Render(doc any, format string) ([]byte, string, error) {
 
 func (h *c38Harness) Reset(init map[string]any) error {
 	if h.root == "" {
-		d, err := os.MkdirTemp("", "c38-")
-		if err != nil {
+		if err := h.start(); err != nil {
 			return err
 		}
-		h.root = d
-		h.debug = os.Getenv("C38_DEBUG") != ""
 	}
-	if h.dir != "" && !h.debug {
-		os.RemoveAll(h.dir)
-	}
-	h.n++
-	h.dir = filepath.Join(h.root, strconv.Itoa(h.n))
-	if err := os.MkdirAll(h.dir, 0o755); err != nil {
-		return err
-	}
-	h.init = init
-	h.file = verifkit.Str(init, "file")
-	h.format = verifkit.Str(init, "fmt")
-	h.watch = nil
-	if w, ok := init["watch"].([]any); ok {
-		for _, k := range w {
-			h.watch = append(h.watch, k.(string))
-		}
-	}
+	h.cur = h.job(init)
 	h.phase, h.conv = "v1", "none"
 	h.res = map[string]any{"stage": "none"}
-	b, ext, err := c38Render(init["doc"], h.format)
-	if err != nil {
-		return err
-	}
-	h.inPath = filepath.Join(h.dir, "v1"+ext)
-	h.outP = filepath.Join(h.dir, "v2.yaml")
-	return os.WriteFile(h.inPath, b, 0o644)
+	h.last = ""
+	return nil
 }
 
 func (h *c38Harness) Project() (any, error) {
@@ -162,89 +277,225 @@ func (h *c38Harness) Project() (any, error) {
 }
 
 func (h *c38Harness) Apply(a map[string]any) error {
+	j := h.cur
+	c38RunBatch(h.claim([]*c38Job{j})) // nobody has started it yet: do it now
+	<-j.done
+	if j.err != nil {
+		return j.err
+	}
 	switch verifkit.Str(a, "name") {
 	case "Convert":
-		return h.convert()
+		h.phase, h.conv, h.last = "v2", j.conv, j.diagC
+		return nil
 	case "Load":
-		return h.load()
+		h.phase, h.res, h.last = "loaded", j.res, j.diagL
+		return nil
 	}
 	return fmt.Errorf("unknown action %v", a)
 }
 
-func (h *c38Harness) convert() error {
-	args, _ := json.Marshal([]string{h.file, "--input", h.inPath, "--output", h.outP})
+func (j *c38Job) finish(err error) {
+	j.err = err
+	close(j.done)
+}
+
+// c38RunBatch does the real work for a few v1 documents in one child process.
+func c38RunBatch(js []*c38Job) {
+	for len(js) > 0 {
+		js = c38RunChild(js)
+	}
+}
+
+// c38RunChild starts one child for js and returns the jobs the child did not
+// get to (the converter took the process down while it worked on an earlier one).
+func c38RunChild(js []*c38Job) []*c38Job {
+	var batch []c38ChildJob
+	var live []*c38Job
+	for _, j := range js {
+		init := j.init
+		file, format := verifkit.Str(init, "file"), verifkit.Str(init, "fmt")
+		var watch []string
+		if w, ok := init["watch"].([]any); ok {
+			for _, k := range w {
+				watch = append(watch, k.(string))
+			}
+		}
+		if err := os.MkdirAll(j.dir, 0o755); err != nil {
+			j.finish(err)
+			continue
+		}
+		b, ext, err := c38Render(init["doc"], format)
+		if err != nil {
+			j.finish(err)
+			continue
+		}
+		in, outP := filepath.Join(j.dir, "v1"+ext), filepath.Join(j.dir, "v2.yaml")
+		if err := os.WriteFile(in, b, 0o644); err != nil {
+			j.finish(err)
+			continue
+		}
+		batch = append(batch, c38ChildJob{ID: j.id, Args: []string{file, "--input", in, "--output", outP},
+			Load: c38LoadReq{File: file, Out: outP, Dir: j.dir, Watch: watch}})
+		live = append(live, j)
+	}
+	if len(live) == 0 {
+		return nil
+	}
+	arg, _ := json.Marshal(batch)
 	cmd := exec.Command(os.Args[0], "-test.run=^TestVerifC38Child$")
-	cmd.Env = append(os.Environ(), c38ChildEnv+"="+string(args))
-	var out bytes.Buffer
-	cmd.Stdout, cmd.Stderr = &out, &out
-	err := cmd.Run()
-	h.phase = "v2"
-	h.last = out.String()
+	cmd.Env = append(os.Environ(), c38BatchEnv+"="+string(arg))
+	pipe, err := cmd.StdoutPipe()
+	if err == nil {
+		cmd.Stderr = cmd.Stdout
+		err = cmd.Start()
+	}
 	if err != nil {
-		if _, ok := err.(*exec.ExitError); !ok {
-			return fmt.Errorf("cannot run the converter child: %w", err)
+		for _, j := range live {
+			j.finish(fmt.Errorf("cannot run the child: %w", err))
 		}
-		if strings.Contains(out.String(), "c38 child: bad args") {
-			return fmt.Errorf("child: %s", out.String())
-		}
-		h.conv = "failed"
 		return nil
 	}
-	if st, err := os.Stat(h.outP); err != nil || st.Size() == 0 {
-		h.conv = "failed"
+	byID := map[int]*c38Job{}
+	for _, j := range live {
+		byID[j.id] = j
+	}
+	var cur *c38Job
+	converted := false
+	var diag strings.Builder
+	finished := map[int]bool{}
+	sc := bufio.NewScanner(pipe)
+	sc.Buffer(make([]byte, 1<<20), 1<<26)
+	for sc.Scan() {
+		line := sc.Text()
+		switch {
+		case strings.HasPrefix(line, c38Begin):
+			id, _ := strconv.Atoi(strings.TrimPrefix(line, c38Begin))
+			cur, converted = byID[id], false
+			diag.Reset()
+		case line == c38Converted && cur != nil:
+			converted = true
+			cur.diagC = diag.String()
+			diag.Reset()
+		case strings.HasPrefix(line, c38Marker) && cur != nil && converted:
+			var lr c38LoadRes
+			j := cur
+			cur = nil
+			finished[j.id] = true
+			if err := json.Unmarshal([]byte(strings.TrimPrefix(line, c38Marker)), &lr); err != nil {
+				j.finish(fmt.Errorf("load child: %v in %q", err, line))
+				continue
+			}
+			if lr.Err != "" {
+				j.finish(fmt.Errorf("load child: %s", lr.Err))
+				continue
+			}
+			j.conv, j.res, j.diagL = "ok", lr.Res, lr.Diag+diag.String()
+			if lr.Res["stage"] == "nofile" { // main() came back but left no file
+				j.conv, j.res = "failed", map[string]any{"stage": "rejected", "valid": false}
+			}
+			j.finish(nil)
+		default:
+			if strings.Contains(line, "c38 child: bad args") {
+				for _, j := range live {
+					if !finished[j.id] {
+						finished[j.id] = true
+						j.finish(fmt.Errorf("child: %s", line))
+					}
+				}
+			}
+			diag.WriteString(line)
+			diag.WriteByte('\n')
+		}
+	}
+	cmd.Wait()
+	if cur != nil && !finished[cur.id] {
+		// the process ended while it worked on cur
+		finished[cur.id] = true
+		if !converted {
+			// ... inside the converter: `convert` failed (os.Exit(1), panic)
+			cur.conv, cur.diagC = "failed", diag.String()
+			cur.res = map[string]any{"stage": "rejected", "valid": false}
+		} else {
+			// ... inside the loader: that is not "accepted"
+			cur.conv, cur.diagL = "ok", diag.String()
+			cur.res = map[string]any{"stage": "rejected", "valid": false, "died": true}
+		}
+		cur.finish(nil)
+	}
+	var rest []*c38Job
+	for _, j := range live {
+		if !finished[j.id] {
+			rest = append(rest, j)
+		}
+	}
+	if len(rest) == len(live) {
+		// the child did not even begin: do not loop for ever
+		for _, j := range rest {
+			j.finish(fmt.Errorf("child produced nothing: %s", diag.String()))
+		}
 		return nil
 	}
-	h.conv = "ok"
-	return nil
+	return rest
 }
 
 const c38MinRules = "RulesVersion: 2\nSamplers:\n  __default__:\n    DeterministicSampler:\n      SampleRate: 1\n"
 const c38MinConfig = "General:\n  ConfigurationVersion: 2\n"
 
-func (h *c38Harness) load() (err error) {
-	h.phase = "loaded"
-	if h.conv != "ok" {
-		h.res = map[string]any{"stage": "rejected", "valid": false}
-		return nil
-	}
-	cfgPath, rulesPath := h.outP, h.outP
-	if h.file == "config" {
-		rulesPath = filepath.Join(h.dir, "minrules.yaml")
+// c38Load runs in the child: Refinery's loader reads the converter's output.
+func c38Load(req c38LoadReq) (lr c38LoadRes) {
+	cfgPath, rulesPath := req.Out, req.Out
+	if req.File == "helm" {
+		// the values file carries both documents: hand each section to the loader as a file of its own
+		raw, err := os.ReadFile(req.Out)
+		if err != nil {
+			return c38LoadRes{Err: err.Error()}
+		}
+		var vals map[string]any
+		if err := yaml.Unmarshal(raw, &vals); err != nil || vals["config"] == nil || vals["rules"] == nil {
+			return c38LoadRes{Res: map[string]any{"stage": "rejected", "valid": false}, Diag: fmt.Sprint("helm output: ", err, " sections: ", len(vals))}
+		}
+		cb, _ := yaml.Marshal(vals["config"])
+		rb, _ := yaml.Marshal(vals["rules"])
+		cfgPath, rulesPath = filepath.Join(req.Dir, "helmconfig.yaml"), filepath.Join(req.Dir, "helmrules.yaml")
+		if err := os.WriteFile(cfgPath, cb, 0o644); err != nil {
+			return c38LoadRes{Err: err.Error()}
+		}
+		if err := os.WriteFile(rulesPath, rb, 0o644); err != nil {
+			return c38LoadRes{Err: err.Error()}
+		}
+	} else if req.File == "config" {
+		rulesPath = filepath.Join(req.Dir, "minrules.yaml")
 		if err := os.WriteFile(rulesPath, []byte(c38MinRules), 0o644); err != nil {
-			return err
+			return c38LoadRes{Err: err.Error()}
 		}
 	} else {
-		cfgPath = filepath.Join(h.dir, "minconfig.yaml")
+		cfgPath = filepath.Join(req.Dir, "minconfig.yaml")
 		if err := os.WriteFile(cfgPath, []byte(c38MinConfig), 0o644); err != nil {
-			return err
+			return c38LoadRes{Err: err.Error()}
 		}
 	}
 	defer func() {
 		if r := recover(); r != nil {
-			h.res = map[string]any{"stage": "rejected", "valid": false, "panic": fmt.Sprint(r)}
-			err = nil
+			lr = c38LoadRes{Res: map[string]any{"stage": "rejected", "valid": false, "panic": fmt.Sprint(r)}}
 		}
 	}()
 	c, lerr := config.NewConfig(&config.CmdEnv{ConfigLocations: []string{cfgPath}, RulesLocations: []string{rulesPath}})
 	if c == nil {
-		h.last = fmt.Sprint(lerr)
-		h.res = map[string]any{"stage": "rejected", "valid": false}
-		return nil
+		return c38LoadRes{Res: map[string]any{"stage": "rejected", "valid": false}, Diag: fmt.Sprint(lerr)}
 	}
 	var eff any = []any{}
-	if len(h.watch) > 0 {
+	if len(req.Watch) > 0 {
 		m := map[string]any{}
-		for _, k := range h.watch {
+		for _, k := range req.Watch {
 			v, err := c38Observe(c, k)
 			if err != nil {
-				return err
+				return c38LoadRes{Err: err.Error()}
 			}
 			m[k] = v
 		}
 		eff = m
 	}
-	h.res = map[string]any{"stage": "loaded", "valid": true, "eff": eff}
-	return nil
+	return c38LoadRes{Res: map[string]any{"stage": "loaded", "valid": true, "eff": eff}}
 }
 
 func c38Ms(d time.Duration) int { return int(d / time.Millisecond) }
